@@ -37,7 +37,13 @@ def main():
             else:
                 env = dict(os.environ, VERIF_REPO=wt, VERIF_EVIDENCE_DIR=os.path.join(SCR, "ev%d" % k), VERIF_CEX_DIR=os.path.join(SCR, "cex%d" % k))
                 t0 = time.time()
-                p = subprocess.run(["./check", c, "--tier", tier], cwd=V, env=env, stdout=subprocess.PIPE, stderr=subprocess.STDOUT, text=True)
+                import signal
+                pr = subprocess.Popen(["./check", c, "--tier", tier], cwd=V, env=env, stdout=subprocess.PIPE, stderr=subprocess.STDOUT, text=True, start_new_session=True)
+                try: so, _ = pr.communicate(timeout=int(os.environ.get("SEEDED_TIMEOUT", "900")))
+                except subprocess.TimeoutExpired:
+                    os.killpg(pr.pid, signal.SIGKILL); so, _ = pr.communicate(); so = (so or "") + "\nINCONCLUSIVE: check timed out"
+                class _P: pass
+                p = _P(); p.stdout = so; p.returncode = pr.returncode if pr.returncode is not None and pr.returncode >= 0 else 2
                 lines = [l for l in p.stdout.split("\n") if l.startswith(("VIOLATION", "INCONCLUSIVE", "KNOWN-FINDING", "  "))]
                 res.update(applies=True, exit=p.returncode, wall_s=round(time.time() - t0), verdict={0: "missed (check passed)", 1: "caught (VIOLATION)", 2: "inconclusive (exit 2)"}.get(p.returncode, "?"),
                            output="\n".join(lines[:4])[:900])
